@@ -483,3 +483,63 @@ def validate_packed(module, cfg, cases_events, tag, max_rounds=12, timeout=900):
         rejected.append((bad, rows[idx], detail))
         remaining = [(n, e) for n, e in remaining if n != bad]
     return len(remaining), rejected, total_states
+
+
+# ----------------------------------------------------------------------------- binding self-test (E4)
+
+def selftest_trace(module, cfg, good_trace_path, mutations, tag, env=None):
+    """The trace specification must reject corrupted versions of a trace it accepts: each mutation is
+    a function rows -> rows (or None if not applicable). Raises Inconclusive if a corrupted trace is
+    accepted (the oracle would be vacuous). Returns the number of mutations applied."""
+    rows = read_ndjson(good_trace_path)
+    applied = 0
+    d = sub(tag + ".selftest")
+    for i, (name, fn) in enumerate(mutations):
+        bad = fn([dict(r) for r in rows])
+        if bad is None:
+            continue
+        p = os.path.join(d, "bad%d.ndjson" % i)
+        write_ndjson(p, bad)
+        r = validate_trace(module, cfg, p, env=env)
+        if r["accepted"]:
+            raise Inconclusive("binding self-test failed: %s accepted a trace corrupted by '%s'" % (module, name))
+        applied += 1
+    return applied
+
+
+def selftest_judge(module, cfg, good_obs, mutations, tag):
+    """Same for TLC-judged observation logs: each corrupted observation must be reported as a DEVIATION."""
+    applied = 0
+    for i, (name, fn) in enumerate(mutations):
+        bad = []
+        for o in good_obs:
+            m = fn(json.loads(json.dumps(o)))
+            if m is not None:
+                m["name"] = "selftest-%d" % len(bad)
+                bad.append(m)
+            if len(bad) >= 3:
+                break
+        if not bad:
+            continue
+        r, dev = judge_observations(module, cfg, bad, "%s.st%d" % (tag, i))
+        if len(dev) != len(bad):
+            raise Inconclusive("binding self-test failed: %s did not flag observations corrupted by '%s' (%d of %d)" % (module, name, len(dev), len(bad)))
+        applied += len(bad)
+    return applied
+
+
+def action_coverage(module, cfgs, ignore=(), timeout=1800):
+    """Runs the configurations with -coverage 1 and returns {action: distinct states found by it},
+    summed over the configurations. An action no configuration ever takes means part of the model
+    was never exercised (vacuity): raises Inconclusive unless it is listed in `ignore`."""
+    total = {}
+    for cfg in cfgs:
+        r = tlc(module, cfg, extra=["-coverage", "1"], timeout=timeout)
+        if not r["completed"]:
+            raise Inconclusive("coverage run of %s/%s did not complete" % (module, cfg))
+        for name, found, _ in re.findall(r"^<(\w+) line [^>]*>: (\d+):(\d+)", r["out"], re.M):
+            total[name] = total.get(name, 0) + int(found)
+    never = sorted(a for a, n in total.items() if n == 0 and a not in ignore and a != "Init")
+    if never:
+        raise Inconclusive("actions never taken in any configuration of %s (vacuous): %s" % (module, never))
+    return total
